@@ -28,6 +28,10 @@ pub async fn declaration(
                             return Ok(None);
                         }
                         if let Some(entry) = doc.table.lookup(&ident.value) {
+                            // early return for default values
+                            if Entry::from(entry).is_default() {
+                                return Ok(None);
+                            }
                             // the name range is relative to the declaration of the looked up entry
                             let tokens = &doc.tokens[entry.to_range()];
                             return Ok(Some(Location {
@@ -178,6 +182,10 @@ pub async fn implementation(
                             local_table: Some(&p.local_table),
                         };
                         if let Some(entry) = lookup_table.lookup(&ident.value) {
+                            // early return for default values
+                            if entry.is_default() {
+                                return Ok(None);
+                            }
                             if let Entry::Procedure(proc_entry) = entry {
                                 // the name range is relative to the declaration of the looked up entry
                                 let tokens = &doc.tokens[proc_entry.to_range()];
